@@ -321,3 +321,7 @@ def run(ctx):
     round3.share(ctx, "R18.5", "C04", lambda i_: i_["rule"] == "R4.3" and i_["inst"].startswith("thread_set_state:TH_ST_"),
                  "thread-flags:", "listed events are rejected in a state where they are legal", 6)
     round3.check_dup_table_on_thread_spec(ctx, "R18.5")
+    ctx.rule("R18.6", "ovnidump substitutes the whole argument: print_arg, for each of the 8 numeric types, formats "
+             "the value built from all bytes of the argument (concrete payload bytes, little endian)")
+    from rules import round4
+    round4.check_print_arg_width(ctx, "R18.6")
